@@ -878,7 +878,28 @@ func checkErrNotSwallowed(c *Ctx, id, key string, call *ssa.Call, e ssa.Value) {
 					}
 				}
 			}
+			// ... or the edge is only reachable when a boolean option asks for it (continue-on-error): with the
+			// error non-nil and every boolean field false, the edge is dead (an earlier test already returned)
+			optional := false
 			if !split && !carried {
+				feas := PathQuery{Fn: fn, Assume: []Assumption{
+					{Pred: func(v ssa.Value) bool {
+						g := CondFact(v, true)
+						return g.Y != nil && g.Op == token.NEQ && ((IsNilConst(g.Y) && isE(g.X)) || (IsNilConst(g.X) && isE(g.Y)))
+					}, Val: true},
+					{Pred: func(v ssa.Value) bool {
+						u, isU := v.(*ssa.UnOp)
+						if !isU || u.Op != token.MUL {
+							return false
+						}
+						_, isFA := u.X.(*ssa.FieldAddr)
+						bt, isB := u.Type().Underlying().(*types.Basic)
+						return isFA && isB && bt.Kind() == types.Bool
+					}, Val: false},
+				}}.Feasible()
+				optional = feas != nil && !feas[errSucc]
+			}
+			if !split && !carried && !optional {
 				ok = false
 				detail = "the err != nil edge falls back into normal flow without returning"
 			}
